@@ -577,8 +577,14 @@ fn prim_case(b: &[u8], o: usize) -> Result<String, (String, String)> {
         if a && ds.offset != o { return Err(format!("set_offset({}) left the cursor at {}", o, ds.offset)); }
         if !a && ds.offset != 0 { return Err(format!("a rejected set_offset({}) moved the cursor to {}", o, ds.offset)); }
         let at = ds.offset;
-        let r1 = ds.rr_rdlen().is_ok();
+        let rd = ds.rr_rdlen();
+        let want = if at + 10 <= b.len() { Some(((b[at + 8] as usize) << 8) | b[at + 9] as usize) } else { None };
+        if rd.as_ref().ok().copied() != want { return Err(format!("rr_rdlen() at {} of a {}-byte buffer returned {:?}, the bytes say {:?}", at, b.len(), rd.map_err(|e| e.to_string()), want)); }
+        let r1 = want.is_some();
+        // outside an OPT record (no option area known) there is nothing to read
         let r2 = ds.edns_rr_rdlen().is_ok();
+        if r2 { return Err(format!("edns_rr_rdlen() at {} succeeded outside any option area", at)); }
+        if ds.clone().into_packet() != b { return Err("into_packet() does not give the buffer back".into()); }
         let mut incs = vec![0usize, 1, 2, o, b.len(), b.len() + 1, usize::MAX, usize::MAX - at, (usize::MAX - at).wrapping_add(1), usize::MAX - 1, usize::MAX / 2 + 1, b.len() - at, b.len() - at + 1];
         incs.dedup();
         let mut okc = 0;
@@ -590,7 +596,9 @@ fn prim_case(b: &[u8], o: usize) -> Result<String, (String, String)> {
             let fits = inc <= b.len() - at;
             if ok != fits { return Err(format!("increment_offset({}) from {} on a {}-byte buffer returned ok={}", inc, at, b.len(), ok)); }
             if d2.offset != if fits { at + inc } else { at } { return Err(format!("increment_offset({}) from {} left the cursor at {}", inc, at, d2.offset)); }
-            let _ = d2.rr_rdlen();
+            let rd = d2.rr_rdlen().ok();
+            let a2 = d2.offset;
+            if rd != if a2 + 10 <= b.len() { Some(((b[a2 + 8] as usize) << 8) | b[a2 + 9] as usize) } else { None } { return Err(format!("rr_rdlen() at {} of a {}-byte buffer returned {:?}", a2, b.len(), rd)); }
             let _ = d2.edns_rr_rdlen();
         }
         Ok(format!("so{}_rd{}_ed{}_inc{}", a as u8, r1 as u8, r2 as u8, okc))
